@@ -54,6 +54,7 @@ Fixpoint set_nth_s (l : list str) (i : nat) (v : str) : list str :=
 Inductive nop :=
 | NRead (i : Z)                      (* signals[i].name *)
 | NWrite (i : Z) (v : str)           (* signals[i].name = v *)
+| NWriteBad (i : Z)                  (* signals[i].name = <not a str>: rejected, nothing changes *)
 | NSetProp (v : str)                 (* extended_properties["NI_LineNames"] = v *)
 | NDelProp                           (* del extended_properties["NI_LineNames"] *)
 | NMerge (v : option str)            (* append(waveform whose properties carry / do not carry NI_LineNames) *)
@@ -84,6 +85,11 @@ Definition nstep (st : nstate) (op : nop) : res nout * nstate :=
           let names := set_nth_s (names_of st) c v in
           (* the property is rewritten, the key-changed callback drops the cache *)
           (Ok NNone, {| n_cols := n_cols st; n_prop := Some (join names); n_cache := None |})
+      | Raise e => (Raise e, st)
+      end
+  | NWriteBad i =>
+      match sig_col st i with
+      | Ok _ => (Raise TypeError, fill st)      (* the names are read (cache filled) before the join fails *)
       | Raise e => (Raise e, st)
       end
   | NSetProp v => (Ok NNone, {| n_cols := n_cols st; n_prop := Some v; n_cache := None |})
